@@ -126,10 +126,25 @@ CLAIMED["C11"] = dict(
     text="cspline_eval_vs: value equals the product of the library's own exp/composition applied to B~_j(u) v_j (so, with C01/C02, the product of matrix "
          "exponentials), vel is the body velocity (D M = M hat(vel)), acc and jer its successive u-derivatives, for symbolic u and control differences; "
          "cspline_eval_dg_dvs: dg, dvel, dacc are the right-Jacobians w.r.t. every control difference (u fixed to sample values for non-commutative groups). "
-         "Bernstein and B-spline bases; (K,G) configurations sampled. cspline_eval_gs/dgs are not extracted (clang 14 cannot instantiate their range adaptor).",
-    note="A1; A2; A6; A7 configurations; R1/R2 rewrite rules; C20 ties the basis constants to their definitions; literal-rounding tolerance 1e-12 on coefficients "
+         "cspline_eval_gs (real pairwise view, rule R5) is the identical operation DAG of g_0 * cspline_eval_vs(g_i (-) g_(i-1)) with identical vel/acc. "
+         "Bernstein and B-spline bases; (K,G) configurations sampled. cspline_eval_dg_dgs (chain rule to control points) is not under contract.",
+    note="A1; A2; A6; A7 configurations; R1/R2/R5 rewrite rules; C20 ties the basis constants to their definitions; literal-rounding tolerance 1e-12 on coefficients "
          "where the compiler folds products of decimal literals.",
     tech=IRSX + "symbolic differentiation + exact normal form", ref="4 C11")
+
+CLAIMED["C13"] = dict(
+    text="BSpline::operator(), t_min, t_max are executed symbolically (std::vector, index truncation and clamping, the window of K+1 control points, the real "
+         "cspline_eval_gs): on every path reached by a stratified time grid (below range, t_min, every knot, interior, t_max, above) the value, velocity and "
+         "acceleration equal the documented curve (cumulative cardinal B-spline of control points i..i+K at u = (t-t0)/dt - i, end values outside, derivatives "
+         "scaled by 1/dt, 1/dt^2) for ALL control points and all t on the path; outputs on interval i depend on control points i..i+K only (structural). The "
+         "library's cumulative B-spline constants satisfy the shift conditions B~_j^(d)(1) = B~_(j-1)^(d)(0), B~_K^(d)(0) = 0, d <= K-1, K = 1..6 (exact). For "
+         "vector-space groups C^(K-1) continuity at every knot, the derivative relations, constant reproduction and left-equivariance are proved end to end; "
+         "for Lie groups they follow by lemma L13 from the contract, the C11 contract of cspline_eval_gs, the shift conditions and C01/C02.",
+    note="A1; A2; A5 lemma L13 (not machine-checked for non-commutative groups); A6 incl. rewrite rules R4 (std::views::drop|take|transform pipeline replaced by a "
+         "window view with the adaptors' documented semantics, arguments verbatim) and R5; A7: groups/degrees/control-point counts sampled, t0 and dt fixed to dyadic "
+         "sample values in the proofs, SO3 additionally at grid times only; paths discovered concolically.",
+    tech=IRSX + "concolic path discovery + structural op-DAG identity / exact normal form against the public cspline_eval_gs; exact rational arithmetic on the basis constants",
+    ref="4 C13")
 
 NOT_YET = {}
 
